@@ -58,7 +58,7 @@ def classify(diag):
     return "note"
 
 
-def analyse(res, obligations):
+def analyse(res, obligations, ghost_regions=None):
     """Attach a verdict to every posed obligation.
 
     verdict: 'discharged' | 'failed' | 'rlimit' | 'notrun'
@@ -87,6 +87,13 @@ def analyse(res, obligations):
             if hit:
                 break
         info = {"kind": k, "message": d.get("message"), "lines": [(s["line_start"], s.get("label")) for s in spans], "text": [t["text"].strip() for s in spans for t in s.get("text", [])][:4]}
+        # a step of the spliced proof script (an assert, the precondition of a lemma call) as opposed to a contract clause:
+        # every span of the error that lies in the obligation's own text is inside a marked ghost region
+        if hit is not None and ghost_regions is not None and k == "error":
+            msg = (d.get("message") or "").lower()
+            own = [s["line_start"] for s in spans if hit["start"] <= s["line_start"] <= hit["end"]]
+            if own and (msg.startswith("assertion failed") or msg.startswith("precondition not satisfied")) and all(any(a <= ln <= b for a, b in ghost_regions) for ln in own):
+                info["proof_step"] = True
         if k == "frontend":
             frontend.append(info)
             continue
